@@ -13,10 +13,11 @@ COMMON_ASSUMPTIONS = [
 
 class Spec:
     def __init__(self, pid, jobs, tags=None, memsafe=False, level='model_checking', explanation='', bounds=None, assumptions=None,
-                 quick_validate=4, compile_failure_is_violation=False, custom=None):
+                 quick_validate=4, compile_failure_is_violation=False, custom=None, engine='ll2c+cbmc', level_text=None, level_note=None, technique=None):
         self.pid = pid; self.jobs = jobs; self.tags = tags or [pid]; self.memsafe = memsafe; self.level = level
         self.explanation = explanation; self._bounds = bounds; self.assumptions = assumptions or []
         self.quick_validate = quick_validate; self.compile_failure_is_violation = compile_failure_is_violation; self.custom = custom
+        self.engine = engine; self.level_text = level_text; self.level_note = level_note; self.technique = technique
     def bounds(self, tier):
         b = dict(BOUNDS[tier])
         if self._bounds: b.update(self._bounds(tier) if callable(self._bounds) else self._bounds)
@@ -30,6 +31,10 @@ BOUNDS = {
 }
 
 REG = {}
+NOT_APPLICABLE = {
+    'C20': 'The subject is a Python script run by GDB\'s embedded interpreter against DWARF of a live process and a natvis XML interpreted by Visual Studio; neither engine can be encoded for a solver, '
+           'and a solver-driven mock gdb.Value would verify the mock, not the printer. Deciding it needs running gdb on compiled programs (testing, a different technique).',
+}
 def get(pid):
     if pid not in REG: raise SystemExit('unknown or unclaimed property ' + pid)
     return REG[pid]
